@@ -42,7 +42,7 @@ def _specs(seq, final):
             specs.append({"script": [(1, server_frame(1, 2, bytes([0x41 + i]))), (1, "RESET")], "on_frame_bytes": _answer_ping})
             loss_after.append(2)
         elif oc == "pingtimeout":
-            specs.append({"script": [(1, server_frame(1, 2, bytes([0x41 + i])))]})  # never answers pings
+            specs.append({"script": [(1, server_frame(1, 2, bytes([0x41 + i]))), (300, "EOF")]})  # never answers pings (gives up after 300 s)
             loss_after.append(None)
         elif oc == "close":
             specs.append({"script": [(1, server_frame(1, 2, bytes([0x41 + i]))), (1, close_frame(1000))], "on_frame_bytes": _answer_ping})
@@ -105,6 +105,8 @@ def k_seq(seq, final, ping=False, on_reconnect=True, default=False):
             sx.require(attempts[j][0] == prev_t + la + interval, "the next attempt happens exactly one reconnect interval after the loss",
                        j=j, what=what)
         else:
+            sx.require(attempts[j][0] <= prev_t + 1 + 2 * 10 + 2 * 3 + interval,
+                       "a peer that stops answering pings is detected (two timeouts after the first ping) and followed by a new attempt", j=j, what=what)
             cand = [s for s in sleeps if bool(s[0] >= prev_t) and bool(s[0] < attempts[j][0])]
             sx.require(len(cand) >= 1 and attempts[j][0] == cand[-1][0] + interval,
                        "the next attempt happens exactly one reconnect interval after the loss was detected", j=j, what=what)
